@@ -318,7 +318,7 @@ class Uncacheable(Harness):
     creator: never handed to the cache backend and returned with cacheable = False -- with and without a pre-store tile
     filter that replaces the image (watermark), for the single-tile and the meta-tile path"""
     modules = ['mapproxy.grid', 'mapproxy.cache.tile']
-    functions = ['TileCreator._create_single_tile', 'TileCreator._create_meta_tile', 'TileManager.apply_tile_filter', 'split_meta_tiles']
+    functions = ['TileCreator._create_single_tile', 'TileCreator._create_meta_tile', 'TileCreator._create_bulk_meta_tile', 'TileManager.apply_tile_filter', 'split_meta_tiles']
 
     @classmethod
     def build(cls, L, cfg):
@@ -352,15 +352,61 @@ class Uncacheable(Harness):
             # like the watermark filter: a new image object takes the place of the upstream answer
             tile.source = tmstub.Img(('filtered', tile.source.tag))
             return tile
-        meta = cfg['mode'] == 'meta'
+        meta = cfg['mode'] in ('meta', 'bulk')
+        bulk = cfg['mode'] == 'bulk'
+        if bulk:
+            src.supports_meta_tiles = False          # a tile source: the tiles of the meta tile are fetched one by one
         mgr = t.TileManager(G, cache, [src], 'png', tmstub.RecLocker(ev), meta_size=[2, 2] if meta else None, meta_buffer=0,
-                            pre_store_filter=[watermark] if fl else [])
+                            pre_store_filter=[watermark] if fl else [], bulk_meta_tiles=bulk)
         c = (1, 1, 2)
         tile = mgr.load_tile_coord(c)
         stores = [e for e in ev if e[0] in ('store_tile', 'store_tiles')]
+        n_stored = sum(1 if e[0] == 'store_tile' else len(e[1]) for e in stores)
         if cb:
-            return AND(len(stores) == 1, tile.source is not None)
-        return AND(len(stores) == 0, tile.source is not None, not tile.cacheable)
+            return AND(n_stored >= 1, tile.source is not None)
+        return AND(n_stored == 0, tile.source is not None, not tile.cacheable)
+
+
+class WMSCTileInfo(Harness):
+    """WMS-C (GetMap with tiled=true that is exactly one stored tile): the image CacheMapLayer hands to the service carries the
+    stored tile's own timestamp and size -- the validators are built from them.  Real CacheMapLayer._image and TileManager over a
+    recording cache that (like the real backends) reports timestamp/size only when asked to load metadata."""
+    modules = ['mapproxy.grid', 'mapproxy.cache.tile', 'mapproxy.layer']
+    functions = ['CacheMapLayer._image', 'TileManager.load_tile_coords', 'TileManager._load_tile_coords', 'Tile.cacheable']
+
+    @classmethod
+    def build(cls, L, cfg):
+        from props import common
+        ly = L.mods['mapproxy.layer']
+        t = L.mods['mapproxy.cache.tile']
+        for name in ('Tile', 'TileCollection'):
+            if name in ly.__dict__:
+                ly.__dict__[name] = getattr(t, name)
+        return dict(t=t, ly=ly, G=common.make_grid(L.mods['mapproxy.grid'], 'merc_ll'))
+
+    @classmethod
+    def inputs(cls, ctx, cfg):
+        ts = real_var('stored_timestamp')
+        assume(AND(ts >= 1, ts <= 4 * 10 ** 9))
+        return dict(ts=ts)
+
+    @classmethod
+    def prop(cls, ctx, cfg, ts):
+        from props import tmstub
+        t, ly, G = ctx['t'], ctx['ly'], ctx['G']
+        ev = []
+        c = (1, 1, 2)
+
+        class Cache(tmstub.RecCache):
+            def load_tile_metadata(self, tile, dimensions=None):
+                tile.timestamp, tile.size = self.ts[tile.coord], 4711
+        cache = Cache(ev, {c: True}, {c: ts})
+        mgr = t.TileManager(G, cache, [], 'png', tmstub.RecLocker(ev), meta_size=None, meta_buffer=0)
+        layer = ly.CacheMapLayer(mgr)
+        q = ly.MapQuery(G.tile_bbox(c), G.tile_size, G.srs, 'png', tiled_only=True)
+        img = layer._image(q)
+        info = img.cacheable
+        return AND(info.timestamp == ts, info.size == 4711, bool(info.cacheable))
 
 
 CANARIES = [
@@ -424,8 +470,10 @@ def obligations(tier, seed):
     # mtime/size say nothing about when this tile was (re)written
     for via in ('load_tile_metadata', 'load_tile'):
         specs.append(spec('props.C13_expiry', 'FileTimestamp', 'validators-from-the-tile-entry-not-the-link-target/%s' % via, cfg=dict(via=via)))
-    for mode in ('single', 'meta'):
+    for mode in ('single', 'meta', 'bulk'):
         specs.append(spec(MOD, 'Uncacheable', 'uncacheable-image-is-never-stored/%s' % mode, cfg=dict(mode=mode)))
+    specs.append(spec(MOD, 'WMSCTileInfo', 'wmsc-image-carries-the-stored-tile-timestamp-and-size', cfg={}, cost=2))
+    specs.append(spec(MOD, 'WMSCTileInfo', 'twin/WMSCTileInfo', kind='witness', cfg={}))
     specs.append(spec(MOD, 'Uncacheable', 'twin/Uncacheable', kind='witness', cfg=dict(mode='single')))
     specs.append(dict(name='stub-contract/httpdate', module=MOD, func='selfcheck_httpdate', kind='holds', args={}, cost=1))
     specs.append(spec(MOD, 'CondHarness', 'twin/CondHarness', kind='witness', cfg=dict(service='wmts', inm='current', ims='date', max_age=3600)))
